@@ -130,6 +130,15 @@ def apply(env: Env, op: str) -> Any:
             return plain(await st.query(HandlerQuery(status_in=["running"], workflow_name_in=["wf"])))
         if op == "delete_h1":
             return await st.delete(HandlerQuery(handler_id_in=["h1"]))
+        # id lists of several hundred values (a client that merges id lists, a batch clean-up job): beyond what a statement can bind one by one
+        if op == "query_many_a":
+            return plain(sorted(await st.query(HandlerQuery(handler_id_in=["h1"] + [f"a{i}" for i in range(1100)])), key=lambda h: h.handler_id))
+        if op == "query_many_b":
+            return plain(sorted(await st.query(HandlerQuery(handler_id_in=["h2"] + [f"b{i}" for i in range(1100)])), key=lambda h: h.handler_id))
+        if op == "delete_many_b":
+            return await st.delete(HandlerQuery(handler_id_in=["h2"] + [f"b{i}" for i in range(1100)]))
+        if op == "query_many_runs":
+            return plain(sorted(await st.query(HandlerQuery(run_id_in=["r2"] + [f"q{i}" for i in range(1100)])), key=lambda h: h.handler_id))
         if op == "status_idle":
             return await st.update_handler_status("r1", idle_since=T0)
         if op == "status_failed":
@@ -284,6 +293,9 @@ def run(tier: str, seed: int) -> Any:
              "append_tick", "get_ticks", "status_idle", "reopen"]
     for a in mixed:
         cases.append(([a], 4 if tier != "quick" else 3, mixed))
+    many = ["upsert_running", "upsert_other", "query_many_a", "query_many_b", "delete_many_b", "query_many_runs", "query_all"]
+    for a in many:
+        cases.append(([a], 5 if tier != "quick" else 4, many))
     return run_grid(PID, RULE, cases, work, seed=seed, chunksize=1, assumptions=[
         "_TICK_PAGE_SIZE is set to 2 by the harness (a configuration constant) so that short tick logs span several pages",
         "single process, no concurrent writers (the AgentCore configuration the property names)"],
